@@ -15,31 +15,113 @@ pub open spec fn slice_eq_is_seq_eq<T: std::cmp::PartialEq>() -> bool {
 }
 pub open spec fn delim() -> Seq<u8> { seq![13u8, 10u8, 13u8, 10u8] }
 
-// (vstd specifies <[T]>::first / last / split_first); assumed contract of <[T]>::split_last:
-pub assume_specification<T>[ <[T]>::split_last ](s: &[T]) -> (r: Option<(&T, &[T])>)
-    ensures s@.len() == 0 ==> r is None,
-        s@.len() > 0 ==> r is Some && *r->Some_0.0 == s@[s@.len() - 1] && r->Some_0.1@ == s@.subrange(0, s@.len() - 1);
 
-pub open spec fn is_ws(b: u8) -> bool { b == 32 || b == 9 || b == 13 || b == 10 }
-
-// trimming optional whitespace (SP / HTAB / CR / LF) from both ends, front first -- the definition
-pub open spec fn trim_ws(s: Seq<u8>) -> Seq<u8> decreases s.len() {
-    if s.len() > 0 && is_ws(s[0]) { trim_ws(s.subrange(1, s.len() as int)) }
-    else if s.len() > 0 && is_ws(s[s.len() - 1]) { trim_ws(s.subrange(0, s.len() - 1)) }
-    else { s }
-}
-// ... and what it means: no whitespace is left at either end, and a value without surrounding
-// whitespace is returned unchanged
-pub proof fn lemma_trim_ws(s: Seq<u8>)
-    ensures
-        trim_ws(s).len() > 0 ==> !is_ws(trim_ws(s)[0]) && !is_ws(trim_ws(s)[trim_ws(s).len() - 1]),
-        (s.len() == 0 || (!is_ws(s[0]) && !is_ws(s[s.len() - 1]))) ==> trim_ws(s) == s,
-        trim_ws(s).len() <= s.len(),
-    decreases s.len()
+// ---- the head delimiter CRLFCRLF
+pub open spec fn has_delim(s: Seq<u8>) -> bool { exists|p: int| occurs_at(delim(), s, p) }
+// position of the first delimiter (meaningful when has_delim)
+pub open spec fn fd(s: Seq<u8>) -> int { choose|p: int| first_occ(delim(), s, p) }
+pub proof fn lemma_first_unique(s: Seq<u8>, a: int)
+    requires first_occ(delim(), s, a)
+    ensures has_delim(s), fd(s) == a
 {
-    if s.len() > 0 && is_ws(s[0]) {
-        lemma_trim_ws(s.subrange(1, s.len() as int));
-    } else if s.len() > 0 && is_ws(s[s.len() - 1]) {
-        lemma_trim_ws(s.subrange(0, s.len() - 1));
+    let b = fd(s);
+    assert(first_occ(delim(), s, b));
+    if a < b { assert(!occurs_at(delim(), s, a)); }
+    if b < a { assert(!occurs_at(delim(), s, b)); }
+}
+pub proof fn lemma_no_delim(s: Seq<u8>)
+    requires no_occ(delim(), s)
+    ensures !has_delim(s)
+{}
+// a delimiter found in a prefix is the first delimiter of every extension (partition independence)
+pub proof fn lemma_fd_prefix(s: Seq<u8>, t: Seq<u8>)
+    requires has_delim(s), s.is_prefix_of(t)
+    ensures has_delim(t), fd(t) == fd(s)
+{
+    let p = choose|p: int| occurs_at(delim(), s, p);
+    // least occurrence exists
+    lemma_least(s, p);
+    let a = fd(s);
+    assert(first_occ(delim(), s, a));
+    assert(t.subrange(a, a + 4) =~= s.subrange(a, a + 4));
+    assert forall|m: int| 0 <= m < a implies !occurs_at(delim(), t, m) by {
+        if occurs_at(delim(), t, m) {
+            assert(s.subrange(m, m + 4) =~= t.subrange(m, m + 4));
+            assert(occurs_at(delim(), s, m));
+        }
+    }
+    lemma_first_unique(t, a);
+}
+pub proof fn lemma_fd_is_first(s: Seq<u8>)
+    requires has_delim(s)
+    ensures first_occ(delim(), s, fd(s)), 0 <= fd(s), fd(s) + 4 <= s.len()
+{
+    lemma_least(s, choose|q: int| occurs_at(delim(), s, q));
+}
+pub proof fn lemma_least(s: Seq<u8>, p: int)
+    requires occurs_at(delim(), s, p)
+    ensures exists|a: int| first_occ(delim(), s, a)
+    decreases p
+{
+    if exists|m: int| 0 <= m < p && occurs_at(delim(), s, m) {
+        let m = choose|m: int| 0 <= m < p && occurs_at(delim(), s, m);
+        lemma_least(s, m);
+    } else {
+        assert(first_occ(delim(), s, p));
+    }
+}
+
+// ---- Head::try_read, assumed at this level: it is `let head = Self::read_head_bytes(buf)?;`
+// (checked syntactically on every run; read_head_bytes itself is under contract below) followed by
+// parsing of the head bytes with regex! / iterator chains (outside Verus), abstracted as the
+// uninterpreted total function parse_head.  The parsers never produce HeadError::Truncated
+// (checked syntactically: the constructor occurs once in `impl Head`, in read_head_bytes).
+pub uninterp spec fn parse_head(bytes: Seq<u8>) -> Result<Head, HeadError>;
+pub open spec fn buf_unchanged<const N: usize>(a: FixedBuf<N>, b: FixedBuf<N>) -> bool {
+    a.ri() == b.ri() && a.wi() == b.wi() && a.mem() == b.mem()
+}
+// exactly the head and its delimiter are consumed; everything after stays readable
+pub open spec fn consumed_head<const N: usize>(pre: FixedBuf<N>, post: FixedBuf<N>) -> bool {
+    has_delim(pre.rd()) && post.wf() && post.mem() == pre.mem()
+    && post.rd() == pre.rd().subrange(fd(pre.rd()) + 4, pre.rd().len() as int)
+}
+impl Head {
+    #[verifier::external_body]
+    pub fn try_read<const BUF_SIZE: usize>(buf: &mut FixedBuf<BUF_SIZE>) -> (r: Result<Self, HeadError>)
+        requires old(buf).wf()
+        ensures final(buf).wf(),
+            !has_delim(old(buf).rd()) ==> r is Err && r->Err_0 is Truncated && buf_unchanged(*old(buf), *final(buf)),
+            has_delim(old(buf).rd()) ==> consumed_head(*old(buf), *final(buf))
+                && r == parse_head(old(buf).rd().subrange(0, fd(old(buf).rd()))) && !(r is Err && r->Err_0 is Truncated),
+    { unimplemented!() }
+}
+
+// ---- the contract of read_http_head, from the property statement: the outcome is a function of the
+// bytes available (buffered ++ delivered), independent of how they were split into reads
+pub open spec fn head_post<const N: usize>(pre: FixedBuf<N>, post: FixedBuf<N>, evs: Seq<Ev>, r: Result<Head, HttpError>) -> bool {
+    let all = pre.rd() + bytes_of(evs);
+    match r {
+        Ok(h) => data_only(evs) && has_delim(all) && parse_head(all.subrange(0, fd(all))) == Ok::<Head, HeadError>(h)
+                 && post.rd() == all.subrange(fd(all) + 4, all.len() as int),
+        Err(e) =>
+            if e is HeadTooLong { data_only(evs) && !has_delim(all) && post.wi() == N && post.rd() == all }
+            // end of stream / read error arrived while there was still room in the buffer
+            else if e is Disconnected { evs.len() > 0 && !(evs.last() is Data) && data_only(evs.drop_last()) && all.len() == 0
+                                        && post.rd() == all && post.wi() < N }
+            else if e is Truncated { evs.len() > 0 && !(evs.last() is Data) && data_only(evs.drop_last()) && all.len() > 0 && !has_delim(all)
+                                     && post.rd() == all && post.wi() < N }
+            else { data_only(evs) && has_delim(all) && parse_head(all.subrange(0, fd(all))) is Err
+                   && e == http_error_of(parse_head(all.subrange(0, fd(all)))->Err_0)
+                   && post.rd() == all.subrange(fd(all) + 4, all.len() as int) },
+    }
+}
+pub open spec fn http_error_of(e: HeadError) -> HttpError {
+    match e {
+        HeadError::Truncated => HttpError::Truncated,
+        HeadError::MissingRequestLine => HttpError::MissingRequestLine,
+        HeadError::MalformedRequestLine => HttpError::MalformedRequestLine,
+        HeadError::MalformedPath => HttpError::MalformedPath,
+        HeadError::UnsupportedProtocol => HttpError::UnsupportedProtocol,
+        HeadError::MalformedHeader => HttpError::MalformedHeaderLine,
     }
 }
